@@ -94,6 +94,11 @@ func (w *World) expandable(ctx *FCtx, call ssa.CallInstruction) *ssa.Function {
 		h = cs[0]
 	case len(cs) > 1:
 		h = w.PreferredCallee(call)
+	default:
+		// a call through a function-typed parameter: resolved in this call context
+		if cc := call.Common(); !cc.IsInvoke() && cc.StaticCallee() == nil {
+			h, _ = w.calleeEnv(call, ctx.en)
+		}
 	}
 	if h == nil || len(h.Blocks) == 0 || !w.InSet(h) || w.IsGenerated(h) {
 		return nil
@@ -111,19 +116,23 @@ func (w *World) child(ctx *FCtx, call ssa.CallInstruction, h *ssa.Function) *FCt
 		return k
 	}
 	k := &FCtx{Call: call, Fn: h, Up: ctx, depth: ctx.depth + 1, kids: map[ssa.CallInstruction]*FCtx{}}
-	k.en = w.callEnv(h, call, ctx.en)
+	if _, en := w.calleeEnv(call, ctx.en); en != nil {
+		k.en = en
+	} else {
+		k.en = w.callEnv(h, call, ctx.en)
+	}
 	ctx.kids[call] = k
 	return k
 }
 
 // FlatCut: deleted edges (per context, computed lazily from a matcher) and barrier instructions.
 type FlatCut struct {
-	Matcher Matcher // edges on which an accepted predicate holds are deleted (nil: none)
-	Depth   int     // helper look-through depth for the matcher
-	Edges   func(ctx *FCtx) map[[2]int]bool
-	Barrier func(ctx *FCtx, in ssa.Instruction) bool
+	Matcher  Matcher // edges on which an accepted predicate holds are deleted (nil: none)
+	Depth    int     // helper look-through depth for the matcher
+	Edges    func(ctx *FCtx) map[[2]int]bool
+	Barrier  func(ctx *FCtx, in ssa.Instruction) bool
 	NoExpand func(h *ssa.Function) bool // callees to step over
-	cache   map[*FCtx]map[[2]int]bool
+	cache    map[*FCtx]map[[2]int]bool
 }
 
 func (w *World) flatEdges(cut *FlatCut, ctx *FCtx) map[[2]int]bool {
